@@ -146,6 +146,8 @@ def run(ctx):
         from sklearn.ensemble import RandomForestClassifier, RandomForestRegressor
         from sklearn.linear_model import LinearRegression, LogisticRegression, SGDClassifier
         from sklearn.naive_bayes import GaussianNB
+        from sklearn.pipeline import make_pipeline
+        from sklearn.preprocessing import StandardScaler
         return [
             ("ParzenWindowClassifier", lambda: ParzenWindowClassifier(classes=[0, 1], metric_dict={"gamma": 0.7}, missing_label=ml, random_state=seed), "clf", True),
             ("SklearnClassifier[GaussianNB]", lambda: SklearnClassifier(GaussianNB(), classes=[0, 1], missing_label=ml, random_state=seed), "clf", True),
@@ -154,6 +156,8 @@ def run(ctx):
             ("SklearnRegressor[refusing]", lambda: SklearnRegressor(Refuse(), missing_label=ml, random_state=seed), "reg", False),
             ("SklearnNormalRegressor[refusing]", lambda: SklearnNormalRegressor(Refuse(), missing_label=ml, random_state=seed), "reg", False),
             ("NICKernelRegressor", lambda: NICKernelRegressor(metric_dict={"gamma": 0.7}, missing_label=ml, random_state=seed), "reg", True),
+            ("SklearnClassifier[Pipeline(scaler, LogisticRegression)]", lambda: SklearnClassifier(make_pipeline(StandardScaler(), LogisticRegression()),
+                                                                                            classes=[0, 1], missing_label=ml, random_state=seed), "clf", True),
             # estimators that would continue from their previous solution if the wrapper ever handed them the same object twice
             ("SklearnClassifier[SGD,warm_start]", lambda: SklearnClassifier(SGDClassifier(loss="log_loss", warm_start=True, max_iter=30, tol=None, random_state=seed),
                                                                             classes=[0, 1], missing_label=ml, random_state=seed), "clf", True),
@@ -220,7 +224,7 @@ def run(ctx):
             if miss.any():
                 ctx.nontriv(("pair", name, X.tobytes(), y.tobytes(), ml))
     # AnnotatorLogisticRegression: fully unlabeled samples are irrelevant
-    for h in range(6 if ctx.is_quick else 60):
+    for h in range(12 if ctx.is_quick else 60):
         n = int(rng.integers(5, 10))
         X = rng.normal(size=(n, 2))
         y = rng.integers(0, 2, size=(n, 2)).astype(float)
@@ -229,9 +233,11 @@ def run(ctx):
         seed = int(rng.integers(0, 100))
         Xq = rng.normal(size=(3, 2))
         try:
-            a = AnnotatorLogisticRegression(classes=[0, 1], n_annotators=2, random_state=seed).fit(X, y).predict_proba(Xq)
+            # with and without sample weights (one weight per (sample, annotator) entry)
+            wkw = (lambda idx: {}) if h % 2 == 0 else (lambda idx, W=rng.integers(1, 4, size=(n, 2)).astype(float): {"sample_weight": W[idx]})
+            a = AnnotatorLogisticRegression(classes=[0, 1], n_annotators=2, random_state=seed).fit(X, y, **wkw(slice(None))).predict_proba(Xq)
             keep = ~np.all(np.isnan(y), axis=1)
-            b = AnnotatorLogisticRegression(classes=[0, 1], n_annotators=2, random_state=seed).fit(X[keep], y[keep]).predict_proba(Xq)
+            b = AnnotatorLogisticRegression(classes=[0, 1], n_annotators=2, random_state=seed).fit(X[keep], y[keep], **wkw(keep)).predict_proba(Xq)
             ctx.count("paired:AnnotatorLogisticRegression")
             if not np.allclose(a, b, rtol=1e-6, atol=1e-8):
                 ctx.violation("AnnotatorLogisticRegression", "unlabeled_samples_matter", f"{a.tolist()} vs {b.tolist()}",
